@@ -240,3 +240,133 @@ def row_prologue_obligations(ctx, rule, rid):
             why += f"; row afterwards {row_after!r}"
         rule.check(ok, f"row prologue[{desc}]", {"skipped": "the row produces nothing", "proceeds": "the row is taken up whole, without its disabled cell", "error": "rejected with a PyXFormError citing the row"}[want]
                    + f", {n_warn} warning(s)", w2j.loc(loop), why_fail=why)
+
+
+# --------------------------------------------------------------------------- dependency slices of the loop body
+_BUILTIN_NAMES = frozenset(dir(__builtins__) if not isinstance(__builtins__, dict) else __builtins__.keys())
+
+
+def _stmt_lists(node):
+    for field in ("body", "orelse", "finalbody"):
+        lst = getattr(node, field, None)
+        if isinstance(lst, list) and lst and isinstance(lst[0], ast.stmt):
+            yield lst
+    if isinstance(node, ast.Try):
+        for h in node.handlers:
+            yield h.body
+
+
+def _owner_chain(root, target):
+    """[(stmt_list, index), ...] from the outermost list under `root` down to the list that directly holds the statement
+    containing `target`."""
+    def rec(node, acc):
+        for lst in _stmt_lists(node):
+            for i, st in enumerate(lst):
+                if st is target or any(n is target for n in ast.walk(st)):
+                    acc2 = [*acc, (lst, i)]
+                    deeper = rec(st, acc2)
+                    return deeper or acc2
+        return None
+    return rec(root, []) or []
+
+
+def _free_names(stmts, module):
+    """Names read before any statement of the slice (in source order) has stored them."""
+    free, stored = set(), set()
+
+    def loads_of(expr):
+        comp_vars = {n.id for c in ast.walk(expr) if isinstance(c, ast.comprehension) for n in ast.walk(c.target) if isinstance(n, ast.Name)}
+        lam_args = {a.arg for l in ast.walk(expr) if isinstance(l, ast.Lambda) for a in [*l.args.args, *l.args.kwonlyargs]}
+        for n in ast.walk(expr):
+            if isinstance(n, ast.Name) and isinstance(n.ctx, ast.Load) and n.id not in stored and n.id not in comp_vars and n.id not in lam_args:
+                free.add(n.id)
+
+    def stores_of(target):
+        for n in ast.walk(target):
+            if isinstance(n, ast.Name) and isinstance(n.ctx, ast.Store):
+                stored.add(n.id)
+            elif isinstance(n, ast.Name) and isinstance(n.ctx, ast.Load):
+                loads_of(n)
+
+    def visit(st):
+        if isinstance(st, ast.Assign):
+            loads_of(st.value)
+            for t in st.targets:
+                stores_of(t)
+                if not isinstance(t, ast.Name):
+                    loads_of(t)
+        elif isinstance(st, ast.AugAssign):
+            loads_of(st.value)
+            loads_of(ast.Name(id=st.target.id, ctx=ast.Load()) if isinstance(st.target, ast.Name) else st.target)
+            stores_of(st.target)
+        elif isinstance(st, ast.AnnAssign):
+            if st.value is not None:
+                loads_of(st.value)
+            stores_of(st.target)
+        elif isinstance(st, ast.For):
+            loads_of(st.iter)
+            stores_of(st.target)
+            for x in [*st.body, *st.orelse]:
+                visit(x)
+        elif isinstance(st, ast.If | ast.While):
+            loads_of(st.test)
+            for x in [*st.body, *st.orelse]:
+                visit(x)
+        elif isinstance(st, ast.Try):
+            for x in st.body:
+                visit(x)
+            for h in st.handlers:
+                if h.name:
+                    stored.add(h.name)
+                for x in h.body:
+                    visit(x)
+            for x in [*st.orelse, *st.finalbody]:
+                visit(x)
+        elif isinstance(st, ast.With):
+            for it_ in st.items:
+                loads_of(it_.context_expr)
+                if it_.optional_vars is not None:
+                    stores_of(it_.optional_vars)
+            for x in st.body:
+                visit(x)
+        else:
+            for ch in ast.iter_child_nodes(st):
+                loads_of(ch)
+
+    for st in stmts:
+        visit(st)
+    return {n for n in free if module.imports.get(n) is None and n not in module.functions and n not in module.assigns and n not in module.classes and n not in _BUILTIN_NAMES}
+
+
+def dependency_slice(w2j, loop, anchors, is_known):
+    """The smallest run of consecutive statements (in one statement list of the loop body) that contains every anchor
+    node and defines every local it reads, except the locals `is_known(name)` says the caller will provide."""
+    chains = [_owner_chain(loop, a) for a in anchors]
+    if not all(chains):
+        raise AnalysisError("slice", "anchor not found in the row loop")
+    depth = 0
+    while all(len(c) > depth for c in chains) and len({id(c[depth][0]) for c in chains}) == 1 and (
+            len({c[depth][1] for c in chains}) == 1 and all(len(c) > depth + 1 for c in chains)):
+        depth += 1
+    lst = chains[0][depth][0]
+    if any(c[depth][0] is not lst for c in chains):
+        depth -= 1
+        lst = chains[0][depth][0]
+    lo = min(c[depth][1] for c in chains)
+    hi = max(c[depth][1] for c in chains)
+    chain = chains[0][: depth + 1]
+    for _ in range(40):
+        stmts = lst[lo:hi + 1]
+        need = {n for n in _free_names(stmts, w2j.module) if not is_known(n)}
+        if not need:
+            return stmts
+        j = next((j for j in range(lo - 1, -1, -1) if need & {n.id for n in ast.walk(lst[j]) if isinstance(n, ast.Name) and isinstance(n.ctx, ast.Store)}), None)
+        if j is not None:
+            lo = j
+            continue
+        if len(chain) <= 1:
+            return stmts  # the remaining names are loop-level state: the caller's environment must provide them
+        chain = chain[:-1]
+        lst, idx = chain[-1]
+        lo = hi = idx
+    raise AnalysisError("slice", "dependency slice did not converge")
